@@ -109,6 +109,20 @@ CLAIMED = {
         "values are not decided.",
         design_ref="DESIGN.md §4 C11",
     ),
+    "C14": dict(
+        technique=TECH + "RFC 4035 5.3.1 guard-table dominance in check_sig, composition check of the signature "
+        "cache key, operand-direction check of the NSEC delegation/DNAME exclusion, typed unwrap/expect audit over "
+        "upstream-derived values",
+        text="Decides narrow structural necessary conditions of C14: in Group::check_sig the cryptographic "
+        "verification is dominated by all eleven RFC 4035 5.3.1 checks (owner, class, signer suffix, type covered, "
+        "labels, expiration, inception, signer==key name, algorithm, key tag, zone flag) with their polarity, and "
+        "the only non-false result is the verification's; the signature cache key covers signed data, full RRSIG "
+        "RDATA and key, and stores check_sig's verdict; the NSEC non-existence proof tests target.ends_with(owner) "
+        "before excluding delegation/DNAME owners; no unaudited unwrap/expect on parse/decode results derived from "
+        "upstream content in any validator body; signature times use the RFC 1982 order. Completeness of the chain "
+        "walk and denial proofs in general are not decided.",
+        design_ref="DESIGN.md §4 C14",
+    ),
     "C15": dict(
         technique=TECH + "guard-table dominance over every is_answer implementation (discovered from the impl "
         "table), delivery-on-matching-edge in the stream demultiplexer and datagram loop (coroutine MIR), slot "
@@ -254,7 +268,7 @@ def main():
         print("MANIFEST.json written (jsonschema not available in this interpreter)")
 
 
-SOURCE_COMMITS = ["6d017b8", "5bee0e2", "d442263", "1972f03", "e564cac", "7c5564a", "eac9679", "3d7d923", "6138459", "e52828b", "7010af2"]
+SOURCE_COMMITS = ["6d017b8", "5bee0e2", "d442263", "1972f03", "e564cac", "7c5564a", "eac9679", "3d7d923", "6138459", "e52828b", "7010af2", "d5ab2d6", "a685388"]
 
 if __name__ == "__main__":
     main()
